@@ -1267,3 +1267,99 @@ Proof.
     cbn [a_conns a_log a_crashed]. intros _. repeat split; auto. intros c' Hn. apply cfind_cset_other. exact Hn.
     exists []. split. reflexivity. constructor.
 Qed.
+
+(* ---------------- a connection gains a key only by claiming a free one; a claimant refused every time never owns ---------------- *)
+Lemma deliver_all_gain pa t : forall ps c r key, k_key c = None -> deliver_all pa t c ps = Ok r ->
+  k_key (dres_conn r) = Some key -> first_key ps = Some key /\ t key = false.
+Proof.
+  induction ps as [|p ps IH]; intros c r key Hk H Hg; cbn [deliver_all] in H.
+  - injection H as <-. cbn [dres_conn] in Hg. congruence.
+  - cbn [first_key]. unfold deliver in H. rewrite Hk in H.
+    destruct (Reply.lookup (m_id (p_msg p))) as [hi|].
+    2:{ cbn [bind] in H. destruct (deliver_all pa t c ps) as [r2|e|] eqn:E2; cbn [bind] in H; try discriminate.
+        injection H as <-. apply (IH c r2 key Hk E2). destruct r2; exact Hg. }
+    destruct (m_id (p_msg p) =? Reply.REISSUE).
+    { cbn [bind] in H. destruct (deliver_all pa t _ ps) as [r2|e|] eqn:E2; cbn [bind] in H; try discriminate.
+      injection H as <-. eapply (IH _ r2 key); [|exact E2|destruct r2; exact Hg]. reflexivity. }
+    destruct (if pa && pm_complete p then handler_parse_chk (p_msg p) else Ok tt) as [u|e|]; cbn [bind] in H; try discriminate.
+    destruct (t (phone_of (p_msg p))) eqn:Et.
+    { injection H as <-. cbn [dres_conn] in Hg. congruence. }
+    assert (forall c' o, k_key c' = Some (phone_of (p_msg p)) ->
+              (r2 <- deliver_all pa t c' ps ;; Ok (match r2 with D_go c'' o2 => D_go c'' (o ++ o2) | D_closed c'' o2 => D_closed c'' (o ++ o2) end)) = Ok r ->
+              Some (phone_of (p_msg p)) = Some key /\ false = false) as Hrest.
+    { intros c' o Hc' H'. destruct (deliver_all pa t c' ps) as [r2|e|] eqn:E2; cbn [bind] in H'; try discriminate.
+      injection H' as <-. pose proof (deliver_all_keeps_key pa t ps c' _ r2 Hc' E2) as Hkeep.
+      split; [|reflexivity]. destruct r2; cbn [dres_conn] in *; congruence. }
+    destruct (pm_complete p && Reply.hi_has hi).
+    + destruct (reply_body_chk _ _ _) as [rb|e|]; cbn [bind] in H; try discriminate.
+      destruct (snd rb); cbn [bind] in H; eapply Hrest in H; try reflexivity; destruct H as [H _];
+        (split; [exact H | injection H as <-; exact Et]).
+    + cbn [bind] in H. eapply Hrest in H; try reflexivity. destruct H as [H _]. split; [exact H | injection H as <-; exact Et].
+Qed.
+
+Lemma conn_data_gain pa t now k d r key : k_key k = None -> conn_data pa t now k d = Ok r ->
+  k_key (dres_conn r) = Some key -> claimed_key now k d = Some key /\ t key = false.
+Proof.
+  intros Hk. unfold conn_data, claimed_key. rewrite parse_chk_ok, Hk. cbn [bind].
+  destruct (parse now (k_ps k) d) as [[ps' msgs] err]. destruct err.
+  - intros H. injection H as <-. cbn [dres_conn k_key]. congruence.
+  - apply deliver_all_gain. reflexivity.
+Qed.
+
+Lemma step808_gain pa c s e : v_crashed s = false -> holds_no_key c s = true ->
+  holds_no_key c (step808 pa s e) = false ->
+  exists now d k key, e = Data c now d /\ cfind c (v_conns s) = Some k /\
+                      claimed_key now k d = Some key /\ taken_by_others c (v_conns s) key = false.
+Proof.
+  intros Hc Hh. unfold holds_no_key in *. unfold step808. rewrite Hc.
+  destruct e as [c0|c0 now d|c0|c0].
+  - destruct (cfind c0 (v_conns s)) eqn:Ef. { rewrite Hh. discriminate. }
+    cbn [v_conns]. destruct (N.eq_dec c c0) as [->|Hn].
+    + rewrite cfind_cset_same. discriminate.
+    + rewrite cfind_cset_other by exact Hn. rewrite Hh. discriminate.
+  - destruct (cfind c0 (v_conns s)) as [k|] eqn:Ef. 2:{ rewrite Hh. discriminate. }
+    destruct d as [|b d]. { rewrite Hh. discriminate. }
+    destruct (conn_data pa _ now k (b :: d)) as [[k' outs|k' outs]|err|] eqn:Ed; cbn [v_conns].
+    + destruct (N.eq_dec c c0) as [->|Hn].
+      * rewrite cfind_cset_same. rewrite Ef in Hh. destruct (k_key k) eqn:Ek. discriminate.
+        destruct (k_key k') as [key|] eqn:Ek'; [|discriminate]. intros _.
+        destruct (conn_data_gain pa _ now k (b :: d) _ key Ek Ed Ek') as [H1 H2].
+        exists now, (b :: d), k, key. auto.
+      * rewrite cfind_cset_other by exact Hn. rewrite Hh. discriminate.
+    + destruct (N.eq_dec c c0) as [->|Hn].
+      * rewrite cfind_cremove_same. discriminate.
+      * rewrite cfind_cremove_other by exact Hn. rewrite Hh. discriminate.
+    + rewrite Hh. discriminate.
+    + cbn [v_conns]. rewrite Hh. discriminate.
+  - cbn [v_conns]. destruct (N.eq_dec c c0) as [->|Hn].
+    + rewrite cfind_cremove_same. discriminate.
+    + rewrite cfind_cremove_other by exact Hn. rewrite Hh. discriminate.
+  - destruct (cfind c0 (v_conns s)) as [k|] eqn:Ef. 2:{ rewrite Hh. discriminate. }
+    cbn [v_conns]. destruct (N.eq_dec c c0) as [->|Hn].
+    + rewrite cfind_cset_same. cbn [break_conn k_key]. rewrite Ef in Hh. rewrite Hh. discriminate.
+    + rewrite cfind_cset_other by exact Hn. rewrite Hh. discriminate.
+Qed.
+
+Lemma forallb_map_ {A B} (g : A -> B) (f : B -> bool) l : forallb f (map g l) = forallb (fun x => f (g x)) l.
+Proof. induction l as [|x l IH]; cbn [map forallb]. reflexivity. now rewrite IH. Qed.
+
+Lemma never_owns_cons pa c s e evs :
+  never_owns pa c s (e :: evs) = holds_no_key c s && never_owns pa c (step808 pa s e) evs.
+Proof.
+  unfold never_owns. cbn [length]. change (seq 0 (S (S (length evs)))) with (0%nat :: seq 1 (S (length evs))).
+  rewrite <- seq_shift. cbn [forallb firstn fold_left]. f_equal. rewrite forallb_map_. reflexivity.
+Qed.
+
+(* REFUSED => NEVER OWNS: a connection that holds no key and whose every claim is of a key in use at that moment holds
+   no key after any prefix of the run *)
+Theorem refused_never_owns pa c : forall evs s, v_crashed s = false -> holds_no_key c s = true ->
+  all_claims_refused pa c s evs = true -> never_owns pa c s evs = true.
+Proof.
+  induction evs as [|e evs IH]; intros s Hc Hh Ha.
+  - unfold never_owns. cbn. now rewrite Hh.
+  - rewrite never_owns_cons, Hh. cbn [andb]. cbn [all_claims_refused] in Ha. apply andb_true_iff in Ha.
+    destruct Ha as [Ha1 Ha2]. apply IH. now apply step808_alive. 2: exact Ha2.
+    destruct (holds_no_key c (step808 pa s e)) eqn:E. reflexivity. exfalso.
+    destruct (step808_gain pa c s e Hc Hh E) as (now & d & k & key & -> & Hf & Hck & Ht).
+    rewrite N.eqb_refl in Ha1. cbn [negb orb] in Ha1. rewrite Hf, Hck, Ht in Ha1. discriminate.
+Qed.
